@@ -1,0 +1,37 @@
+//! Verification hooks, compiled only with the cargo feature `verif` (off by default).
+//!
+//! Add-only: `pub` forwarding wrappers and read-only accessors for crate-private items, so
+//! that out-of-tree verification harnesses can drive the real kernels. No logic lives here.
+
+pub use crate::class_reader::verif as reader;
+pub use crate::simple_class_writer::verif as writer;
+
+use anyhow::Result;
+use crate::ClassWrite;
+use crate::tree::method::code::{ArrayType, Label, LabelRange};
+use crate::tree::method::MethodDescriptorSlice;
+use crate::tree::module::{ModuleExportsFlags, ModuleFlags, ModuleOpensFlags, ModuleRequiresFlags};
+
+pub fn label_id(label: &Label) -> u16 { label.id }
+pub fn label_from_id(id: u16) -> Label { Label { id } }
+pub fn label_range_ids(range: &LabelRange) -> (u16, u16) { (range.start.id, range.end.id) }
+
+pub fn module_flags(f: &ModuleFlags) -> (bool, bool, bool) { (f.is_open, f.is_synthetic, f.is_mandated) }
+pub fn module_flags_new(is_open: bool, is_synthetic: bool, is_mandated: bool) -> ModuleFlags { ModuleFlags { is_open, is_synthetic, is_mandated } }
+pub fn module_requires_flags(f: &ModuleRequiresFlags) -> (bool, bool, bool, bool) { (f.is_transitive, f.is_static_phase, f.is_synthetic, f.is_mandated) }
+pub fn module_requires_flags_new(is_transitive: bool, is_static_phase: bool, is_synthetic: bool, is_mandated: bool) -> ModuleRequiresFlags {
+	ModuleRequiresFlags { is_transitive, is_static_phase, is_synthetic, is_mandated }
+}
+pub fn module_exports_flags(f: &ModuleExportsFlags) -> (bool, bool) { (f.is_synthetic, f.is_mandated) }
+pub fn module_exports_flags_new(is_synthetic: bool, is_mandated: bool) -> ModuleExportsFlags { ModuleExportsFlags { is_synthetic, is_mandated } }
+pub fn module_opens_flags(f: &ModuleOpensFlags) -> (bool, bool) { (f.is_synthetic, f.is_mandated) }
+pub fn module_opens_flags_new(is_synthetic: bool, is_mandated: bool) -> ModuleOpensFlags { ModuleOpensFlags { is_synthetic, is_mandated } }
+
+pub fn array_type_from_atype(atype: u8) -> Result<ArrayType> { ArrayType::from_atype(atype) }
+pub fn array_type_to_atype(t: ArrayType) -> u8 { t.to_atype() }
+
+pub fn method_descriptor_arguments_size(desc: &MethodDescriptorSlice) -> Result<u8> { desc.get_arguments_size() }
+
+pub fn write_usize_as_u8(w: &mut Vec<u8>, value: usize) -> Result<()> { w.write_usize_as_u8(value) }
+pub fn write_usize_as_u16(w: &mut Vec<u8>, value: usize) -> Result<()> { w.write_usize_as_u16(value) }
+pub fn write_usize_as_u32(w: &mut Vec<u8>, value: usize) -> Result<()> { w.write_usize_as_u32(value) }
